@@ -3,7 +3,12 @@
    line (application, requests of the connection, early-answering fang), one line per event of the real session
    (hooks of Request::read / Session::manage interleaved with the fang and handler events), and an `end` line with
    the statuses the client saw.  Every event must be a step of Server; SInv must hold after every step; at `end`
-   the responses the machine counted are the ones the client received. *)
+   the responses the machine counted are the ones the client received.
+
+   The search is linear: every event line carries its arguments, so the spec never branches.  An event whose guard is
+   false, or a state in which an invariant of the composition is broken, ends the run with a STUCK record that names
+   the event, the phase and the broken invariant (the driver attributes it to a property from that), and validation
+   goes on with the next run. *)
 EXTENDS Server, Json, IOUtils
 
 Rec == ndJsonDeserialize(IOEnv.TRACE)
@@ -18,21 +23,30 @@ TReset == /\ l <= N /\ Cur.ev = "reset" /\ Consume /\ id' = Cur.id
           /\ phase' = "idle" /\ k' = 0 /\ apps' = Cur.apps /\ reqs' = Cur.conn /\ early' = Cur.early /\ log' = <<>> /\ status' = 0
           /\ closing' = FALSE /\ answered' = <<>>
 NextReset(j) == CHOOSE m \in j..(N + 1) : (m = N + 1 \/ Rec[m].ev = "reset") /\ \A i \in j..(m - 1) : Rec[i].ev # "reset"
-TSkip == /\ l <= N /\ Cur.ev # "reset" /\ l' = NextReset(l) /\ UNCHANGED <<svars, id>>
 
-Step(A) == /\ l <= N /\ Consume /\ A /\ UNCHANGED id /\ SInv'
-TEvent == \/ (l <= N /\ Cur.ev = "read-start" /\ Step(ReadStart))
-          \/ (l <= N /\ Cur.ev = "read" /\ Step(ReadDone(Cur.a)))
-          \/ (l <= N /\ Cur.ev = "parsed" /\ Step(Parsed(Cur.a = 1)))
-          \/ (l <= N /\ Cur.ev \in {"enter", "leave", "handler"} /\ Step(FangEvent(<<Cur.ev, Cur.a>>)))
-          \/ (l <= N /\ Cur.ev = "handled" /\ Step(Handled(Cur.a)))
-          \/ (l <= N /\ Cur.ev = "sent" /\ Step(Sent))
-          \/ (l <= N /\ Cur.ev = "rejected" /\ Step(Rejected(Cur.a)))
-          \/ (l <= N /\ Cur.ev = "close" /\ Step(Close))
+EvNames == {"read-start", "read", "parsed", "enter", "leave", "handler", "handled", "sent", "rejected", "close"}
+Guard(r) == CASE r.ev = "read-start" -> CanReadStart [] r.ev = "read" -> CanReadDone(r.a) [] r.ev = "parsed" -> CanParsed(r.a = 1)
+              [] r.ev \in {"enter", "leave", "handler"} -> CanFangEvent(<<r.ev, r.a>>)
+              [] r.ev = "handled" -> CanHandled(r.a) [] r.ev = "sent" -> CanSent [] r.ev = "rejected" -> CanRejected(r.a)
+              [] r.ev = "close" -> CanClose [] OTHER -> FALSE
+Act(r) == CASE r.ev = "read-start" -> ReadStart [] r.ev = "read" -> ReadDone(r.a) [] r.ev = "parsed" -> Parsed(r.a = 1)
+            [] r.ev \in {"enter", "leave", "handler"} -> FangEvent(<<r.ev, r.a>>)
+            [] r.ev = "handled" -> Handled(r.a) [] r.ev = "sent" -> Sent [] r.ev = "rejected" -> Rejected(r.a)
+            [] r.ev = "close" -> Close [] OTHER -> FALSE
+Stuck(why) == /\ PrintT(ToJson([t |-> "STUCK", id |-> id, at |-> l, ev |-> Cur.ev, a |-> Cur.a, why |-> why, phase |-> phase, k |-> k]))
+              /\ l' = NextReset(l) /\ UNCHANGED <<svars, id>>
+TEvent == /\ l <= N /\ Cur.ev \in EvNames
+          /\ IF ~SInv THEN Stuck("invariant:" \o BrokenInv)
+             ELSE IF Guard(Cur) THEN (Consume /\ Act(Cur) /\ UNCHANGED id)
+             ELSE Stuck("guard")
 TEnd == /\ l <= N /\ Cur.ev = "end" /\ Consume /\ UNCHANGED <<svars, id>>
-        /\ PrintT(ToJson([t |-> "VERDICT", id |-> id,
-                          ok |-> ([j \in DOMAIN answered |-> answered[j].status] = Cur.statuses) /\ phase \in {"closed", "idle", "reading", "read"},
-                          sig |-> [class |-> IF [j \in DOMAIN answered |-> answered[j].status] # Cur.statuses THEN "client-saw-other-responses" ELSE "end-phase-" \o phase]]))
-TNext == TReset \/ TSkip \/ TEvent \/ TEnd
+        /\ LET seen == [j \in DOMAIN answered |-> answered[j].status] IN
+           PrintT(ToJson([t |-> "VERDICT", id |-> id,
+                          ok |-> SInv /\ seen = Cur.statuses /\ phase \in {"closed", "idle", "reading", "read"},
+                          sig |-> [class |-> IF ~SInv THEN "invariant:" \o BrokenInv
+                                             ELSE IF seen # Cur.statuses THEN "client-saw-other-responses" ELSE "end-phase-" \o phase]]))
+\* lines of a run that got stuck before a `reset` was reached cannot occur (Stuck jumps to the next reset); anything else is skipped
+TOther == /\ l <= N /\ Cur.ev \notin EvNames \cup {"reset", "end"} /\ Consume /\ UNCHANGED <<svars, id>>
+TNext == TReset \/ TEvent \/ TEnd \/ TOther
 TSpec == TInit /\ [][TNext]_tvars
 =============================================================================
